@@ -588,6 +588,21 @@ def b_unary(P, s, a, b, c, name):
     if i is None:
         return None
     t = P.vals[i]
+    if name == "out_arg":
+        # an explicit output tensor (torch.mul(q, k, out=o)): it receives what the float program computes
+        if t.ndim == 0 or t.dtype not in DTYPES:
+            return None
+        form = c % 5
+        k = SCALARS[a % 8] or 2.0
+        if form == 0:
+            return dict(f=lambda t: torch.mul(t, k, out=torch.empty(t.shape, dtype=t.dtype)), ops=[i], klass="rescale", factor=abs(k))
+        if form == 1:
+            return dict(f=lambda t: torch.neg(t, out=torch.empty(t.shape, dtype=t.dtype)), ops=[i], klass="neg")
+        if form == 2:
+            return dict(f=lambda t: torch.cat([t, t], out=torch.empty((2 * t.shape[0],) + tuple(t.shape[1:]), dtype=t.dtype)), ops=[i], klass="move")
+        if form == 3:
+            return dict(f=lambda t: torch.div(t, abs(k), out=torch.empty(t.shape, dtype=t.dtype)), ops=[i], klass="rescale", factor=1.0 / abs(k))
+        return dict(f=lambda t: torch.relu(t).clone() if False else torch.clamp(t, min=0, out=torch.empty(t.shape, dtype=t.dtype)), ops=[i], klass="move")
     if name == "view_dtype":
         if t.ndim == 0 or not t.is_contiguous() or t.dtype not in DTYPES:
             return None
@@ -802,7 +817,7 @@ BUILDERS["copy_"] = b_copy_
 for _n in ("mul_scalar", "rmul_scalar", "div_scalar", "rdiv_scalar", "div_floor"):
     BUILDERS[_n] = b_scalar
 for _n in ("neg", "relu", "frelu", "softmax", "fsoftmax", "abs", "exp", "tanh", "gelu", "silu", "sum", "mean", "amax", "argmax", "sort", "cumsum",
-           "log_softmax", "layer_norm", "topk", "zeros_like", "ones_like", "sign", "square", "isfinite", "std", "masked_fill", "tolist_sum", "numel", "size", "dim", "numpy_sum", "repr", "view_dtype"):
+           "log_softmax", "layer_norm", "topk", "zeros_like", "ones_like", "sign", "square", "isfinite", "std", "masked_fill", "tolist_sum", "numel", "size", "dim", "numpy_sum", "repr", "view_dtype", "out_arg"):
     BUILDERS[_n] = b_unary
 for _n in ("add", "sub", "mul_tensor", "div_tensor", "maximum", "equal", "cosine_similarity", "lt", "lt_m", "gt", "eq", "is_same_size"):
     BUILDERS[_n] = b_binary
@@ -825,7 +840,7 @@ INTERCEPTED = ["view", "reshape", "flatten", "unflatten", "t", "transpose", "per
                "fsoftmax", "where", "lt", "lt_m", "lt_scalar", "mm", "matmul2", "bmm", "matmul", "linear", "linear_nobias", "linear_nd", "pad"]
 PASSTHROUGH = ["abs", "exp", "tanh", "gelu", "silu", "sum", "mean", "amax", "argmax", "sort", "cumsum", "log_softmax", "layer_norm", "topk", "zeros_like",
                "ones_like", "sign", "square", "isfinite", "std", "masked_fill", "tolist_sum", "numel", "size", "dim", "add", "sub", "mul_tensor",
-               "div_tensor", "maximum", "equal", "cosine_similarity", "gt", "eq", "index_select", "flip", "numpy_sum", "repr", "is_same_size", "view_dtype"]
+               "div_tensor", "maximum", "equal", "cosine_similarity", "gt", "eq", "index_select", "flip", "numpy_sum", "repr", "is_same_size", "view_dtype", "out_arg"]
 SEMANTIC = ["clone", "detach", "neg", "relu", "frelu", "mul_scalar", "rmul_scalar", "div_scalar", "where", "lt", "lt_m", "lt_scalar", "softmax", "copy_", "cat", "stack", "split", "t", "transpose"]
 ALLOPS = INTERCEPTED + INTERCEPTED + SEMANTIC + SEMANTIC + PASSTHROUGH + INPLACE  # intercepted ops (and those acting on codes) more likely
 
